@@ -52,6 +52,10 @@ class Model:
             nd = other.nodes[b]
             p = mapping[nd["parent"]] if nd["parent"] is not None else parent
             self.add_node(mapping[b], nd["op"], p, req=nd.get("eff_outs", nd["req"]), md=nd["md"])
+        # the copy keeps the order of B's children (which differs from index order if B reused
+        # the index of a deleted node)
+        for b in other.nodes:
+            self.nodes[mapping[b]]["children"] = [mapping[c] for c in other.nodes[b]["children"]]
         for (s, so, t, to) in other.links:
             self.links.append((mapping[s], so, mapping[t], to))
 
